@@ -77,6 +77,18 @@ theorem attr_wiring_good :
               && e.2.2.length == (tracedCallbacks t.2.2).length)) = true := by
   decide
 
+/-- **How `subgraph` uses its callback.** Inside `spox._graph.subgraph` the callback parameter occurs only as
+    `callable(fun)`, as the one call `fun(*<arguments>)` (a single starred argument, no keywords — Python's own
+    binding decides what is accepted, `CallForm.accepts`), and as the argument of `_with_constructor`; no
+    attribute of the callable is read, it is handed to no other function (no signature pre-check), it is
+    not rebound, and `_graph.py` imports no introspection module. -/
+theorem callback_use_good :
+    Generated.SubgraphInventory.callbackUses.all
+        (fun u => ["call:starred", "arg-of:callable", "arg-of:_with_constructor"].contains u) = true
+      ∧ Generated.SubgraphInventory.callbackUses.count "call:starred" = 1
+      ∧ Generated.SubgraphInventory.introspectionImports = [] := by
+  decide
+
 /-- Call sites, other than `subgraph`, that could reach a stored callback — from the source. -/
 def extra : List String :=
   extraSites Generated.CallbackSites.invokers Generated.CallbackSites.reconstructCallers
